@@ -4,7 +4,7 @@
   `fix:` commits (D5 Remove, D16 CopyInto, D17 getOrCreate); the unchanged code is pinned by the `…_orig_…` witnesses.
   Clause checklist at the end.
 -/
-import Qfx.Lemmas.CodecWire
+import Qfx.Lemmas.CodecScan
 open Qfx Qfx.Spec
 
 /-- "tag order list vs tag lookup map: two views of the same field set that must stay in step" —
@@ -228,6 +228,32 @@ theorem C10_parse_build (fx : Fixes) (ops : List MOp) (hp : ∀ op ∈ ops, op.p
       · have e : tv :: t9 :: t35 :: (pre ++ [t10]) = (tv :: t9 :: t35 :: pre) ++ [t10] := by simp
         rw [e, List.getLast?_append]; simp [hwm.tag10]
 
+/-- THE MONITOR'S OWN PREDICATE.  The independent tag=value scanner of `Qfx.Spec.Codec` (the one the monitor runs on the
+    implementation's output) reads every built message back as exactly the list of TagValues that was written, and its
+    well-formedness predicate `wireWF` — 8, 9, 35 first; a single 10, last; no further 8 / 9; BodyLength = bytes between the
+    BodyLength field and the CheckSum field; CheckSum = byte sum mod 256 in three digits — holds, for every sequence of
+    proper, SOH-free operations that sets BeginString and MsgType. -/
+theorem C10_build_scans_wf (ops : List MOp) (hp : ∀ op ∈ ops, op.proper ∧ op.wire) (m : Message)
+    (hrun : runMOps ops Message.new = .ok m)
+    (h8 : (alFind m.header.lookup 8).isSome = true) (h35 : (alFind m.header.lookup 35).isSome = true)
+    (bytes : Bytes) (m' : Message) (hbuild : m.build Fixes.cur = .ok (bytes, m')) (hsmall : bytes.length < 9223372036854775808) :
+    wireWF bytes = true ∧ ∃ L : List TagValue, bytes = wireOf L ∧ scanFields bytes = some (L.map wfOf) := by
+  obtain ⟨hb, hw⟩ := runMOps_wired ops _ m Built.new Wired.new hp hrun
+  cases hf8 : alFind m.header.lookup 8 with
+  | none => rw [hf8] at h8; cases h8
+  | some f8 =>
+    cases hf35 : alFind m.header.lookup 35 with
+    | none => rw [hf35] at h35; cases h35
+    | some f35 =>
+      obtain ⟨l, hl⟩ := hb.ph.owned 8 f8 hf8
+      subst hl
+      obtain ⟨tv, rest, hl, ht⟩ := hb.ph.head 8 l hf8
+      subst hl
+      have hone := (hb.ph.special 8 _ hf8 tv (by simp) (Or.inl ht)).1
+      rw [hone] at hf8
+      obtain ⟨L, hL, hscan, hwf⟩ := build_scans_wf m hb hw tv f35 hf8 hf35 bytes m' hbuild hsmall
+      exact ⟨by simp [wireWF, hscan, hwf], L, hL, hscan⟩
+
 /-- the hypotheses of `C10_build_wf` are an invariant: they hold again after the build (and any further proper operations) -/
 theorem C10_built_invariant (ops : List MOp) (hp : ∀ op ∈ ops, op.proper) (m : Message) (hrun : runMOps ops Message.new = .ok m) :
     Built m := runMOps_built ops _ m Built.new hp hrun
@@ -252,7 +278,9 @@ theorem C10_orig_set_over_group_keeps_members :
 
 /-! ## not (yet) theorems: kept as full statements, checked on every run by the monitor (Qfx.Spec.monBuild) and the correspondence -/
 
-/-- the scanner reads back, from the bytes of a built message, exactly the canonical field list of the abstract message -/
+/-- the whole monitor (scanner-level clauses RELATIVE TO THE ABSTRACT MESSAGE `a` that the operations describe: each set
+    field once with its latest value, section membership) — `wireWF` and the scan are theorems (C10_build_scans_wf), the
+    refinement between `Abs` and the model's maps is not -/
 def C10_build_wf_full : Prop :=
   ∀ (a : Abs) (m : Message) (bytes : Bytes) (m' : Message), m.build Fixes.cur = .ok (bytes, m') → monBuild a bytes = []
 
@@ -274,5 +302,5 @@ example : ∃ m, runFOps [.set (TagValue.init 58 [97]), .remove 58, .set (TagVal
    "BodyLength equals the byte count … CheckSum equals the sum"    C10_build_wf (bytes); C10_length_total_accounting, C10_cook_values
    "Parsing those bytes yields the same fields and values"         C10_parse_build (no dictionary; monitor clauses reparse_ok / reparse_same_fields for all modes)
    "a copied message serialises identically to its source"         C10_copy_writes_same, C10_copy_length_total_same (monitor copy_identical)
-   scanner-level well-formedness of the whole output               C10_build_wf_full (monitor clauses once_each … checksum)
+   scanner-level well-formedness of the whole output               C10_build_scans_wf (wireWF, scan = written fields); relative to Abs: C10_build_wf_full
    op-order independence ("whatever API calls produced them")      C10_write_history_independent -/
